@@ -219,6 +219,52 @@ theorem storedL_of_saved (s : Str) (j : Ser) (H : List Node → Id) (hash : Byte
 end
 
 mutual
+/-- nodes and chunks do not depend on what the index already has (only the list of uploaded trees does) -/
+theorem save_indep (H : List Node → Id) (hash : Bytes → Id) (chunks : Bytes → List Bytes) (h1 h2 : Id → Bool) :
+    ∀ (t : STree), (save H hash chunks h1 t).nodes = (save H hash chunks h2 t).nodes ∧
+      (save H hash chunks h1 t).chunks = (save H hash chunks h2 t).chunks
+  | .leaf n d => by by_cases hk : n.kind = .file <;> simp [save, hk]
+  | .dir n cs => by
+    have ih := saveL_indep H hash chunks h1 h2 cs
+    simp only [save, ih.1, ih.2, and_self]
+theorem saveL_indep (H : List Node → Id) (hash : Bytes → Id) (chunks : Bytes → List Bytes) (h1 h2 : Id → Bool) :
+    ∀ (ts : List STree), (saveL H hash chunks h1 ts).nodes = (saveL H hash chunks h2 ts).nodes ∧
+      (saveL H hash chunks h1 ts).chunks = (saveL H hash chunks h2 ts).chunks
+  | [] => by simp [saveL]
+  | t :: ts => by
+    have a := save_indep H hash chunks h1 h2 t
+    have b := saveL_indep H hash chunks h1 h2 ts
+    simp only [saveL, a.1, a.2, b.1, b.2, and_self]
+end
+
+mutual
+/-- only trees the index lacks are handed to the tree packer -/
+theorem save_trees_new (H : List Node → Id) (hash : Bytes → Id) (chunks : Bytes → List Bytes) (hasTree : Id → Bool) :
+    ∀ (t : STree), ∀ p ∈ (save H hash chunks hasTree t).trees, hasTree p.1 = false
+  | .leaf n d => by
+    intro p hp
+    by_cases hk : n.kind = .file <;> simp [save, hk] at hp
+  | .dir n cs => by
+    intro p hp
+    simp only [save] at hp
+    split at hp
+    · exact saveL_trees_new H hash chunks hasTree cs p hp
+    · rename_i hh
+      rcases List.mem_append.mp hp with hp | hp
+      · exact saveL_trees_new H hash chunks hasTree cs p hp
+      · simp only [List.mem_singleton] at hp; subst hp; simpa using hh
+theorem saveL_trees_new (H : List Node → Id) (hash : Bytes → Id) (chunks : Bytes → List Bytes) (hasTree : Id → Bool) :
+    ∀ (ts : List STree), ∀ p ∈ (saveL H hash chunks hasTree ts).trees, hasTree p.1 = false
+  | [] => by intro p hp; simp [saveL] at hp
+  | t :: ts => by
+    intro p hp
+    simp only [saveL] at hp
+    rcases List.mem_append.mp hp with hp | hp
+    · exact save_trees_new H hash chunks hasTree t p hp
+    · exact saveL_trees_new H hash chunks hasTree ts p hp
+end
+
+mutual
 theorem stored_of_saved_gen (s : Str) (j : Ser) (H : List Node → Id) (hash : Bytes → Id) (chunks : Bytes → List Bytes)
     (hasTree : Id → Bool) (getTree getData : Id → Option Bytes)
     (hold : ∀ nodes, hasTree (H nodes) = true → getTree (H nodes) = some (treeBytes s j nodes)) : ∀ (t : STree),
